@@ -68,6 +68,12 @@ Lemma parse_flags_are_volatile : parse_flags_volatile = true.
 Proof. reflexivity. Qed.
 Lemma parse_prologue_does_not_allocate : parse_prologue_allocating_calls = nil.
 Proof. reflexivity. Qed.
+(* every setting the library assigns during a parse is saved before setjmp and written back by the handler; the locals
+   are not assigned again after setjmp (they would be indeterminate after longjmp) *)
+Lemma parse_settings_kept :
+  settings_kept settings_changed_during_parse settings_saved_before_setjmp settings_restored_by_handler = true /\
+  saved_settings_reassigned_later = nil.
+Proof. vm_compute. split; reflexivity. Qed.
 
 (* the places compared by the validity test of the goto cache and the place the completer looks at *)
 Lemma cache_indexes_ok : forall k p d,
@@ -79,3 +85,7 @@ From Coq Require Import String.
 Lemma la_filters_same : la_filter_scan = la_filter_complete /\
   In "grammar->term_error_num"%string la_filter_scan /\ In "lookahead_term_num"%string la_filter_scan.
 Proof. vm_compute. repeat split; auto. Qed.
+
+(* the validity test of the goto cache visits every start situation of the cached set *)
+Lemma cache_check_loop_ok : cache_check_visits_all_start_sits = true.
+Proof. reflexivity. Qed.
